@@ -58,3 +58,41 @@ NOT_APPLICABLE = [
     {'property_id': 'C15', 'reason': 'completeness of a tree walk over an unbounded DOM with map-of-map caches needs heap-shape reasoning CBMC contracts cannot express (DESIGN.md 4 C15)'},
     {'property_id': 'C19', 'reason': 'allocation balance over ~1000 sites and "k-th allocation fails" is fault enumeration over C++ RAII templates, a different family (DESIGN.md 4 C19)'},
 ]
+
+# ---- claims brought up to date with the units added after the first report (one place, overrides the texts above) ----
+CLAIMS['C03'].update(
+    kernel='memory-safety/UB obligations of every unit + fixed-buffer conversions, URI dot-segment removal, xsl:number count arrays, XPath token-queue cursor, ICU object caches',
+    text='Component-level proof: bounds, pointer, overflow, conversion, division and shift obligations of every extracted function, for all inputs; the fixed-size buffer conversions the property singles out; the token-queue cursor of the XPath parser never leaves the queue (also on the error path); eviction in the ICU DecimalFormat/Collator caches destroys exactly the object of the entry that leaves. Exception-to-status mapping, leaks in general, the parsers and termination outside the listed loops are not covered.')
+CLAIMS['C04'].update(
+    kernel='UTF-8 and UTF-16 writers, surrogate decoding, escaping and CDATA state machines of FormatterToXMLUnicode, XalanOutputStream::write buffering, xsl:comment content repair (bounded)',
+    text=CLAIMS['C04']['text'].replace(' Serializer selection,', ' XalanOutputStream::write keeps the order of buffered and direct blocks and never overfills its buffer; xsl:comment content reaches the serializer without "--" or a trailing "-" (bounded stand-in, strings of <= 6 units). Serializer selection,'))
+CLAIMS['C06'].update(
+    kernel=CLAIMS['C06']['kernel'] + '; NodeSorter scratch/caches under clear-guards; ElemForEach push/pop balance; install/uninstall of extension functions',
+    text=CLAIMS['C06']['text'].replace(' History equivalence', ' The sorter copies nodes into its long-lived scratch vector only under a guard that clears it on every exit; what createSelectedAndSortedNodeList pushes is what releaseSelectedAndSortedNodeList pops; installExternalFunction maps the name to a clone of the new function also when the name was installed before. History equivalence'))
+CLAIMS['C08'].update(
+    kernel=CLAIMS['C08']['kernel'] + '; FormatterToHTML::processAttribute (minimisation); XalanXMLSerializerFactory::create; CDATA splitting (c04_cdata)',
+    text=CLAIMS['C08']['text'].replace(' Option selection', ' HTML attribute minimisation applies only to boolean attributes whose value equals their name; the serializer factory picks writer, character table and version constant consistently with encoding, XML version and indent for all 12 instantiations. Option selection'))
+CLAIMS['C10'].update(
+    kernel=CLAIMS['C10']['kernel'] + ', pattern-table choice per node kind (locateMatchPatternDataList), wildcard merge in postConstruction, construction of the built-in rules',
+    text=CLAIMS['C10']['text'].replace('table construction by name and the built-in rules are not covered', 'the list searched for a node is the one its kind and name select and wildcard rules are merged into every per-name list of their own family; the three built-in rules are built as XSLT 5.8 gives them, their instruction flagged to keep the current mode. The agreement of addToTable with the name a pattern can match is assumed'))
+CLAIMS['C11'].update(
+    kernel='the six XPath::executeMore overloads, the XPath::execute entry points (context set-up), the static XObject conversions, literal/number-literal specialisations, number(node)',
+    text='Component-level relational proof: for every op code, each specialised evaluation entry point returns the standard conversion of the generic result; the typed entry points evaluate with the same context node / current node as the general one; literal op codes give the same token in every form. Sub-expression evaluators are taken by contract.')
+CLAIMS['C12'].update(
+    kernel=CLAIMS['C12']['kernel'] + ', the ordering predicates of MutableNodeRefList, DOMServices::isNodeAfter, source-tree index assignment (slice)',
+    text=CLAIMS['C12']['text'].replace(' The other axes', ' The ordering predicates treat the document node as first node of its own tree; DOMServices::isNodeAfter orders ancestors before descendants and siblings by position (tree modelled by depth/branch handles); every node construction site of the default source tree takes the index counter and advances it (slice). The other axes'))
+CLAIMS['C13'].update(
+    kernel=CLAIMS['C13']['kernel'] + ', match score of a strip/preserve-space name test, merge order of imported declarations',
+    text=CLAIMS['C13']['text'].replace(' That the tree walks', ' A name test gets the score of its form (name > prefix:* > *), and imported declarations are appended highest import precedence first. That the tree walks'))
+CLAIMS['C16'].update(
+    kernel=CLAIMS['C16']['kernel'] + ', NodeSorter::sort(context) (algorithm, range, cache guards), ElemForEach::createSelectedAndSortedNodeList, the collator cache lookup',
+    text=CLAIMS['C16']['text'].replace(' std::stable_sort, the string-key cache', ' The sort is std::stable_sort over the whole scratch vector; two or more selected nodes are sorted wherever the select expression left them (list or node-set object); the collator used is the one cached for the key\'s own language. std::stable_sort, the string-key cache'))
+CLAIMS['C17'].update(
+    kernel='ElemNumber::int2alphaCount, toRoman, Counter::getPreviouslyCounted, CountersTable::countNode, getCountMatchPattern, getMatchingAncestors, getPreviousNode, findAncestor/findPrecedingOrAncestorOrSelf, getCountString (value rounding), NumberFormatStringTokenizer',
+    text='Component-level proof of the alphabetic/roman formatting kernels (buffer safety for all 64-bit values; value round-trip, bounded for the alphabetic table), the counter cache, the default count pattern per node kind, level="multiple" ancestor collection and level="any" backward walk honouring from/count, rounding of value=, and the format-token classification. Traditional/Greek/CJK numbering and grouping separators are not covered.')
+CLAIMS['C18'].update(
+    kernel='DoubleSupport::round, doValidate (Number grammar), convertHelper, WideStringToLong alphabet (bounded), NumberToDOMString(double)/NumberToCharacters, typed numeric evaluation dispatch',
+    text=CLAIMS['C18']['text'])
+CLAIMS['C20'].update(
+    kernel=CLAIMS['C20']['kernel'] + '; XalanDOMString::assign(self range), substr, resize; XalanDeque resize and block management; XalanList::splice on real pointers',
+    text=CLAIMS['C20']['text'].replace(' The other container templates are assumed.', ' assign(source, pos, n) is exact also for the string itself; XalanDeque resize/push_back/pop_back keep count and block ownership (index vs free list); XalanList::splice(pos, list, element) keeps every node of a 6-node closed world well linked for every aliasing. The other container operations are assumed.'))
